@@ -29,7 +29,7 @@ from runtime.rt_abort import supervised_fork, pid_state  # noqa: E402
 
 NAME = "C09.sigchld.no_lost_wakeup_when_the_signal_arrives_just_before_wait_blocks"
 FUNCTION = "utils/sigchld.py::SigchldHelper.wait (+ _handler, track)"
-CASE_TIMEOUT = 6.0
+CASE_TIMEOUT = 10.0
 
 
 class _SigSet(ctypes.Structure):
